@@ -6324,6 +6324,11 @@ class SFTPServerHandler(SFTPHandler):
         file_obj = self._file_handles.get(handle)
 
         if file_obj:
+            # A read may return less than what was asked for, so don't
+            # read (and buffer) more than the maximum read length
+            # this server reports to clients
+            length = min(length, MAX_SFTP_READ_LEN)
+
             result = self._server.read(file_obj, offset, length)
 
             if inspect.isawaitable(result):
